@@ -7,7 +7,7 @@ DEPS = {'C01': ['classes', 'dicts', 'simplify', 'shapes', 'lookup', 'values', 'i
         'C05': ['classes', 'dicts', 'simplify', 'shapes', 'values', 'insert', 'content', 'insertall', 'subset', 'wrapsplit', 'wrapmerge'],
         'C06': ['classes', 'simplify'],
         'C07': ['classes', 'dicts', 'simplify', 'shapes', 'valid'],
-        'C08': ['classes', 'lookup'],
+        'C08': ['classes', 'dicts', 'lookup'],
         'C10': ['classes', 'valid'],
         'C11': ['stack', 'stackadd'],
         'C12': ['stack', 'stackadd'],
@@ -22,7 +22,7 @@ DEPS = {'C01': ['classes', 'dicts', 'simplify', 'shapes', 'lookup', 'values', 'i
 
 GROUP_THEOREMS = {
     'classes': ['get_valid_classes_is_model', 'get_valid_classes_refuses', 'get_multiplicity_is_model'],
-    'dicts': ['make_empty_bases_is_model', 'get_values_and_class_is_lookup'],
+    'dicts': ['make_empty_bases_is_model', 'get_values_and_class_is_lookup', 'get_values_is_lookup'],
     'simplify': ['is_constant_is_model', 'is_repeating_is_model', 'get_const_period_is_model', 'simplify_is_model'],
     'lookup': ['get_meta_index_is_model', 'meta_valid_is_model', 'get_meta_is_model'],
     'valid': ['check_valid_is_model'],
